@@ -145,12 +145,13 @@ Definition compl_of (a : act) : option (nat * ctx) :=
   end.
 
 (* activities / continuations that only exist after started_ = true *)
-Definition after_started (x : act * cont) : option nat :=
-  match x with
-  | (ASyncLoad i, _) | (AStartedOr i, _) | (ASyncSpin i, _) | (ATryLock i, _) | (APush i, _) | (APushPub i, _) => Some i
-  | (_, KAfterStart i) => Some i
+Definition as_a (a : act) : option nat :=
+  match a with
+  | ASyncLoad i | AStartedOr i | ASyncSpin i | ATryLock i | APush i | APushPub i => Some i
   | _ => None
   end.
+Definition as_k (k : cont) : option nat :=
+  match k with KAfterStart i => Some i | _ => None end.
 
 (* indices mentioned by a thread (operations, not thread ids) *)
 Definition act_ix (a : act) : option nat :=
@@ -207,11 +208,14 @@ Record Inv (s : st) : Prop := {
   v_ci : forall t a kc k c, nth_error (thr s) t = Some (a, kc) -> compl_of a = Some (k, c) ->
          is_lock_ctx c = false -> o_cancelled (ops s k) = true;
   v_s1 : forall k, o_started (ops s k) = true -> o_started_ (ops s k) = true;
-  v_as : forall t x i, nth_error (thr s) t = Some x -> after_started x = Some i -> o_started_ (ops s i) = true;
+  v_as_a : forall t a kc i, nth_error (thr s) t = Some (a, kc) -> as_a a = Some i -> o_started_ (ops s i) = true;
+  v_as_k : forall t a kc i, nth_error (thr s) t = Some (a, kc) -> as_k kc = Some i -> o_started_ (ops s i) = true;
   v_rs : forall k, o_released (ops s k) = true -> o_res (ops s k) = [OValue];
   (* a taken item stays in the queue until the pop publishes; one pop at a time *)
   v_pp : forall t x kc, nth_error (thr s) t = Some (APopPub x, kc) -> 1 <= inq s x;
   v_pu : sumf is_poppub (thr s) <= 1;
+  (* the separate hop step exists only in the unrepaired forwarder *)
+  v_hop : forall t k c kc, nth_error (thr s) t = Some (AHop k c, kc) -> fixed s = false;
   (* mutual exclusion / conservation of the lock *)
   v_tok : tokens s <= b2n (locked s);
   v_tokf : fixed s = true -> tokens s = b2n (locked s)
@@ -413,7 +417,7 @@ Ltac kill_early I Hth :=
   | Q : o_started (ops ?s ?i) = true, Q' : o_started_ (ops ?s ?i) = false |- _ =>
       rewrite (v_s1 _ I i Q) in Q'; discriminate Q'
   | Q' : o_started_ (ops ?s ?i) = false |- _ =>
-      rewrite (v_as _ I _ _ i Hth eq_refl) in Q'; discriminate Q'
+      rewrite (v_as_a _ I _ _ _ i Hth eq_refl) in Q'; discriminate Q'
   end.
 
 Lemma handles_mono s t s' evs : Inv s -> step t s = Some (s', evs) -> forall k, handles s' k <= handles s k.
@@ -557,4 +561,514 @@ Proof.
            | unfold getop in *; simpl; rewrite ?Nat.eqb_refl; simpl; reflexivity ]
    | apply M; eapply (v_ci _ I); eauto ]).
 
+Qed.
+
+Lemma step_as s t s' evs : Inv s -> step t s = Some (s', evs) ->
+  (forall t0 a kc i, nth_error (thr s') t0 = Some (a, kc) -> as_a a = Some i -> o_started_ (ops s' i) = true) /\
+  (forall t0 a kc i, nth_error (thr s') t0 = Some (a, kc) -> as_k kc = Some i -> o_started_ (ops s' i) = true).
+Proof.
+  intros I H. split.
+  - intros t0 a0 kc0 i0 H0 Ha.
+    pose proof (started__mono _ _ _ _ i0 H) as M.
+    step_split' H Hth; simpl in H0;
+    (destruct (nth_thr_cases _ _ _ _ _ _ Hth H0) as [[-> E]|[N E]];
+     [ injection E as Ea Ek; subst a0 kc0; try (destruct kc; simpl in Ha; try kill_ki I Hth);
+       repeat match type of Ha with context [if ?b then _ else _] => destruct b eqn:? end;
+       simpl in Ha; try discriminate Ha;
+       injection Ha as Ei; subst i0;
+       try first [ apply M; eapply (v_as_a _ I _ _ _ _ Hth); reflexivity
+                 | apply M; eapply (v_as_k _ I _ _ _ _ Hth); reflexivity
+                 | unfold getop in *; simpl; rewrite ?Nat.eqb_refl; simpl; reflexivity ]
+     | apply M; eapply (v_as_a _ I); eauto ]).
+  - intros t0 a0 kc0 i0 H0 Ha.
+    pose proof (started__mono _ _ _ _ i0 H) as M.
+    step_split' H Hth; simpl in H0;
+    (destruct (nth_thr_cases _ _ _ _ _ _ Hth H0) as [[-> E]|[N E]];
+     [ injection E as Ea Ek; subst a0 kc0; try (destruct kc; simpl in Ha; try kill_ki I Hth);
+       simpl in Ha; try discriminate Ha;
+       injection Ha as Ei; subst i0;
+       try first [ apply M; eapply (v_as_a _ I _ _ _ _ Hth); reflexivity
+                 | apply M; eapply (v_as_k _ I _ _ _ _ Hth); reflexivity
+                 | unfold getop in *; simpl; rewrite ?Nat.eqb_refl; simpl; reflexivity ]
+     | apply M; eapply (v_as_k _ I); eauto ]).
+Qed.
+
+Lemma step_s1 s t s' evs : Inv s -> step t s = Some (s', evs) ->
+  forall k, o_started (ops s' k) = true -> o_started_ (ops s' k) = true.
+Proof.
+  intros I H k Hs.
+  pose proof (started__mono _ _ _ _ k H) as M. pose proof (v_s1 _ I k) as S1.
+  step_split' H Hth; simpl in *; unfold getop in *; destr_if; simpl in *; auto;
+    try (apply Nat.eqb_eq in Heqb; subst); 
+    try (match goal with Q : (_ =? _) = true |- _ => apply Nat.eqb_eq in Q; subst end);
+    try (eapply (v_as_a _ I _ _ _ _ Hth); reflexivity).
+
+Qed.
+
+Lemma step_rs s t s' evs : Inv s -> step t s = Some (s', evs) ->
+  forall k, o_released (ops s' k) = true -> o_res (ops s' k) = [OValue].
+Proof.
+  intros I H k Hr.
+  pose proof (v_rs _ I k) as R. pose proof (v_ps _ I k) as P.
+  step_split' H Hth; simpl in *; unfold getop in *; destr_if; simpl in *; auto;
+    try (match goal with Q : (_ =? _) = true |- _ => apply Nat.eqb_eq in Q; subst end);
+    try (exfalso; specialize (R Hr); rewrite R in *; simpl in *;
+         match type of Hr with o_released (ops _ ?j) = true =>
+           pose proof (sumf_nth_le (is_post j) _ _ _ Hth) as L; simpl in L; try unfold eqn in L;
+           rewrite ?Nat.eqb_refl in L; unfold posts in P;
+           destruct (o_completed (ops s j)); simpl in *; try discriminate; lia end).
+  assumption.
+Qed.
+
+Lemma popping_zero s : popping s = false <-> sumf is_poppub (thr s) = 0.
+Proof.
+  unfold popping. apply existsb_sumf. intros [a kc]. destruct a; simpl; split; intros; try discriminate; try lia; auto.
+Qed.
+
+Lemma taken_false_nth s x t kc : taken s x = false -> nth_error (thr s) t = Some (APopPub x, kc) -> False.
+Proof.
+  unfold taken. intros H Hn.
+  assert (E : existsb (fun ak : act * cont => match fst ak with APopPub y => Nat.eqb x y | _ => false end) (thr s) = true).
+  { apply existsb_exists. exists (APopPub x, kc). split; [eapply nth_error_In; eauto|]. simpl. apply Nat.eqb_refl. }
+  congruence.
+Qed.
+
+Lemma sumf_two {A} (f : A -> nat) l a b x y :
+  nth_error l a = Some x -> nth_error l b = Some y -> a <> b -> f x + f y <= sumf f l.
+Proof.
+  unfold sumf. revert a b; induction l as [|z l IH]; intros a b Ha Hb N.
+  - destruct a; discriminate.
+  - destruct a, b; simpl in *; try congruence.
+    + inversion Ha; subst. pose proof (sumf_nth_le f l b y Hb). unfold sumf in *. lia.
+    + inversion Hb; subst. pose proof (sumf_nth_le f l a x Ha). unfold sumf in *. lia.
+    + assert (a <> b) by congruence. specialize (IH _ _ Ha Hb H). lia.
+Qed.
+
+Lemma step_pu s t s' evs : Inv s -> step t s = Some (s', evs) -> sumf is_poppub (thr s') <= 1.
+Proof.
+  intros I H. pose proof (v_pu _ I) as P.
+  step_split' H Hth; simpl; try (destruct kc; simpl; try kill_ki I Hth); destr_if; use_sum Hth; try lia.
+  all: match goal with Q : popping _ = false |- _ => apply popping_zero in Q end; lia.
+Qed.
+
+Lemma step_pp s t s' evs : Inv s -> step t s = Some (s', evs) ->
+  forall t0 x kc, nth_error (thr s') t0 = Some (APopPub x, kc) -> 1 <= inq s' x.
+Proof.
+  intros I H t0 x0 kc0 H0.
+  step_split' H Hth; simpl in H0; unfold inq; simpl;
+  (destruct (nth_thr_cases _ _ _ _ _ _ Hth H0) as [[-> E]|[N E]];
+   [ try (destruct kc; simpl in E; try kill_ki I Hth); 
+     repeat match type of E with context [if ?b then _ else _] => destruct b eqn:? end;
+     try discriminate E
+   | pose proof (v_pp _ I _ _ _ E) as P; unfold inq in P ]); count_simp; try lia.
+  all: try (injection E as -> ->; rewrite Heql; simpl; destruct (Nat.eq_dec n n); [lia|congruence]).
+  - exfalso. pose proof (sumf_two is_poppub _ _ _ _ _ Hth E (not_eq_sym N)) as T. simpl in T.
+    pose proof (v_pu _ I). lia.
+  - side_facts I Hth. destruct (Nat.eqb_spec i x0).
+    + subst. exfalso. eapply taken_false_nth; eauto.
+    + lia.
+Qed.
+
+Lemma compl_facts s t a kc k c : Inv s -> nth_error (thr s) t = Some (a, kc) -> compl_of a = Some (k, c) ->
+  k < nl s /\ o_res (ops s k) = [] /\ o_released (ops s k) = false /\
+  o_cancelled (ops s k) = negb (is_lock_ctx c) /\
+  (forall c' , a = ATryComplete k c' -> o_completed (ops s k) = false).
+Proof.
+  intros I Hth Hc.
+  assert (Hk : k < nl s).
+  { eapply (v_wf_a _ I _ _ _ _ Hth). destruct a; simpl in *; try discriminate; inversion Hc; subst; reflexivity. }
+  assert (Hcomp : forall c', a = ATryComplete k c' -> o_completed (ops s k) = false).
+  { intros c' ->. apply (v_hs2 _ I k). pose proof (v_hs1 _ I k) as H1.
+    pose proof (sumf_nth_le (is_pre k) _ _ _ Hth) as L. simpl in L. unfold eqn in L. rewrite Nat.eqb_refl in L.
+    unfold handles in *. lia. }
+  assert (Hres : o_res (ops s k) = []).
+  { pose proof (v_ps _ I k) as P. unfold posts in P.
+    destruct a; simpl in Hc; try discriminate; inversion Hc; subst.
+    - rewrite (Hcomp c eq_refl) in P. simpl in P. destruct (o_res (ops s k)); simpl in *; auto; lia.
+    - pose proof (sumf_nth_le (is_post k) _ _ _ Hth) as L. simpl in L. unfold eqn in L. rewrite Nat.eqb_refl in L.
+      destruct (o_completed (ops s k)); simpl in P; destruct (o_res (ops s k)); simpl in *; auto; lia.
+    - pose proof (sumf_nth_le (is_post k) _ _ _ Hth) as L. simpl in L. unfold eqn in L. rewrite Nat.eqb_refl in L.
+      destruct (o_completed (ops s k)); simpl in P; destruct (o_res (ops s k)); simpl in *; auto; lia.
+    - pose proof (sumf_nth_le (is_post k) _ _ _ Hth) as L. simpl in L. unfold eqn in L. rewrite Nat.eqb_refl in L.
+      destruct (o_completed (ops s k)); simpl in P; destruct (o_res (ops s k)); simpl in *; auto; lia.
+    - pose proof (sumf_nth_le (is_post k) _ _ _ Hth) as L. simpl in L. unfold eqn in L. rewrite Nat.eqb_refl in L.
+      destruct (o_completed (ops s k)); simpl in P; destruct (o_res (ops s k)); simpl in *; auto; lia.
+    - pose proof (sumf_nth_le (is_post k) _ _ _ Hth) as L. simpl in L. unfold eqn in L. rewrite Nat.eqb_refl in L.
+      destruct (o_completed (ops s k)); simpl in P; destruct (o_res (ops s k)); simpl in *; auto; lia. }
+  split; [exact Hk|]. split; [exact Hres|]. split; [|split; [|exact Hcomp]].
+  - destruct (o_released (ops s k)) eqn:R; auto. rewrite (v_rs _ I k R) in Hres. discriminate.
+  - destruct (is_lock_ctx c) eqn:L; simpl.
+    + destruct (o_cancelled (ops s k)) eqn:C; auto. exfalso.
+      pose proof (v_cs _ I k C) as Z. unfold lockish in Z.
+      pose proof (sumf_nth_le (is_lockish k) _ _ _ Hth) as L2.
+      destruct a; simpl in Hc; try discriminate; inversion Hc; subst; simpl in L2; rewrite L in L2;
+        unfold eqn in L2; rewrite Nat.eqb_refl in L2; lia.
+    + eapply (v_ci _ I); eauto.
+Qed.
+
+Lemma sumf_ext {A} (f g : A -> nat) l : (forall x, f x = g x) -> sumf f l = sumf g l.
+Proof. intros H. unfold sumf. induction l; simpl; auto. Qed.
+
+Lemma sumf_seq_upd (g1 g2 : nat -> nat) n k0 :
+  k0 < n -> (forall j, j <> k0 -> g1 j = g2 j) -> sumf g1 (seq 0 n) + g2 k0 = sumf g2 (seq 0 n) + g1 k0.
+Proof.
+  intros Hk Hj. unfold sumf.
+  assert (G : forall m b, (b <= k0 < b + m -> list_sum (map g1 (seq b m)) + g2 k0 = list_sum (map g2 (seq b m)) + g1 k0)
+                     /\ (~ (b <= k0 < b + m) -> list_sum (map g1 (seq b m)) = list_sum (map g2 (seq b m)))).
+  { induction m as [|m IH]; intros b; split; intros Hb; simpl; try lia.
+    - destruct (Nat.eq_dec b k0).
+      + subst. destruct (IH (S k0)) as [_ IH2]. rewrite IH2 by lia. lia.
+      + destruct (IH (S b)) as [IH1 _]. rewrite (Hj b n0). specialize (IH1 ltac:(lia)). lia.
+    - destruct (IH (S b)) as [_ IH2]. rewrite IH2 by lia. rewrite (Hj b) by lia. reflexivity. }
+  destruct (G n 0) as [G1 _]. apply G1. lia.
+Qed.
+
+Lemma ops_tok_neutral s k f : (forall o, op_tok (f o) = op_tok o) -> ops_tok (upd_op s k f) = ops_tok s.
+Proof.
+  intros H. unfold ops_tok. simpl. apply sumf_ext. intros j. destruct (Nat.eqb j k); auto.
+Qed.
+
+Lemma ops_tok_upd s k f : k < nl s -> ops_tok (upd_op s k f) + op_tok (ops s k) = ops_tok s + op_tok (f (ops s k)).
+Proof.
+  intros H. unfold ops_tok. simpl.
+  pose proof (sumf_seq_upd (fun j => op_tok (if j =? k then f (ops s j) else ops s j)) (fun j => op_tok (ops s j)) (nl s) k H) as X.
+  simpl in X. rewrite Nat.eqb_refl in X. apply X.
+  intros j Hj. apply Nat.eqb_neq in Hj. rewrite Hj. reflexivity.
+Qed.
+
+Lemma thr_tok_set S t a k a0 k0 : nth_error (thr S) t = Some (a0, k0) ->
+  thr_tok (set_thr S t a k) + act_tok a0 = thr_tok S + act_tok a.
+Proof. intros H. unfold thr_tok. simpl. apply (sumf_set_nth (fun x => act_tok (fst x)) (thr S) t (a, k) (a0, k0) H). Qed.
+
+Lemma ops_tok_set_thr s t a k : ops_tok (set_thr s t a k) = ops_tok s. Proof. reflexivity. Qed.
+Lemma ops_tok_set_locked s b : ops_tok (set_locked s b) = ops_tok s. Proof. reflexivity. Qed.
+Lemma ops_tok_set_queue s q : ops_tok (set_queue s q) = ops_tok s. Proof. reflexivity. Qed.
+Lemma thr_tok_upd_op s k f : thr_tok (upd_op s k f) = thr_tok s. Proof. reflexivity. Qed.
+Lemma thr_tok_set_locked s b : thr_tok (set_locked s b) = thr_tok s. Proof. reflexivity. Qed.
+Lemma thr_tok_set_queue s q : thr_tok (set_queue s q) = thr_tok s. Proof. reflexivity. Qed.
+
+Ltac ops_neutral :=
+  rewrite ?ops_tok_set_thr;
+  repeat first [ rewrite ops_tok_set_locked | rewrite ops_tok_set_queue
+               | rewrite ops_tok_neutral by (intros; reflexivity) ].
+
+Ltac ops_neutral_in OT :=
+  rewrite ?ops_tok_set_thr in OT;
+  repeat first [ rewrite ops_tok_set_locked in OT | rewrite ops_tok_set_queue in OT
+               | rewrite ops_tok_neutral in OT by (intros; reflexivity) ].
+
+Ltac tok_norm Hth :=
+  rewrite ?tokens_eq in *; unfold ret; cbn [ret_to fst snd];
+  match goal with |- context [thr_tok (set_thr ?S ?t ?a ?k)] =>
+    let TT := fresh "TT" in pose proof (thr_tok_set S t a k _ _ Hth) as TT;
+    let v := fresh "v" in remember (thr_tok (set_thr S t a k)) as v eqn:Ev; clear Ev;
+    rewrite ?thr_tok_upd_op, ?thr_tok_set_locked, ?thr_tok_set_queue in TT; simpl in TT
+  end;
+  rewrite ?ops_tok_set_thr.
+
+(* the one operation whose token status changes: completion (w_res) or release (w_released) *)
+Ltac ops_changed Hk :=
+  try match goal with
+  | |- context [ops_tok (upd_op ?S ?k (w_res ?o))] =>
+      let OT := fresh "OT" in pose proof (ops_tok_upd S k (w_res o) Hk) as OT;
+      let w := fresh "w" in remember (ops_tok (upd_op S k (w_res o))) as w eqn:Ew; clear Ew;
+      ops_neutral_in OT; simpl in OT; rewrite ?Nat.eqb_refl in OT; simpl in OT
+  | |- context [ops_tok (upd_op ?S ?k w_released)] =>
+      let OT := fresh "OT" in pose proof (ops_tok_upd S k w_released Hk) as OT;
+      let w := fresh "w" in remember (ops_tok (upd_op S k w_released)) as w eqn:Ew; clear Ew;
+      ops_neutral_in OT; simpl in OT; rewrite ?Nat.eqb_refl in OT; simpl in OT
+  end.
+
+Ltac lock_cases :=
+  repeat match goal with
+  | H : context [b2n (locked ?s)] |- _ => destruct (locked s) eqn:?; simpl in *
+  | |- context [b2n (locked ?s)] => destruct (locked s) eqn:?; simpl in *
+  end.
+
+Lemma step_hop s t s' evs : Inv s -> step t s = Some (s', evs) ->
+  forall t0 k c kc, nth_error (thr s') t0 = Some (AHop k c, kc) -> fixed s' = false.
+Proof.
+  intros I H t0 k0 c0 kc0 H0.
+  step_split' H Hth; simpl in *;
+  (destruct (nth_thr_cases _ _ _ _ _ _ Hth H0) as [[-> E]|[N E]];
+   [ try (destruct kc; simpl in E; try kill_ki I Hth);
+     repeat match type of E with context [if ?b then _ else _] => destruct b eqn:? end;
+     try discriminate E; auto
+   | eapply (v_hop _ I); eauto ]).
+Qed.
+
+Lemma step_tok s t s' evs : Inv s -> step t s = Some (s', evs) ->
+  tokens s' <= b2n (locked s') /\ (fixed s' = true -> tokens s' = b2n (locked s')).
+Proof.
+  intros I H. pose proof (v_tok _ I) as T0. pose proof (v_tokf _ I) as F0.
+  step_split' H Hth; try (destruct kc; try kill_ki I Hth);
+    try (pose proof (compl_facts _ _ _ _ _ _ I Hth eq_refl) as (Hk & Hres & Hrel & Hcan & Hcomp));
+    try (assert (Hk : i < nl s) by (eapply (v_wf_a _ I _ _ _ _ Hth); reflexivity));
+    try (pose proof (v_hop _ I _ _ _ _ Hth) as Hfx);
+    tok_norm Hth; ops_changed Hk; ops_neutral; unfold getop in *; simpl in *; destr_if; simpl in *;
+    try (rewrite (Hcomp _ eq_refl) in *; discriminate);
+    try congruence; unfold op_tok in *; simpl in *;
+    rewrite ?Hres, ?Hrel in *; simpl in *; try congruence;
+    repeat match goal with
+    | Q : o_res ?o = _, OT : context [o_res ?o] |- _ => rewrite Q in OT
+    | Q : o_released ?o = _, OT : context [o_released ?o] |- _ => rewrite Q in OT
+    end; simpl in *;
+    lock_cases; try discriminate;
+    try (split; [lia|intros Fx; first [specialize (F0 Fx)|specialize (F0 eq_refl)|idtac]; try discriminate; try congruence; lia]).
+Qed.
+
+Lemma step_inv s t s' evs : Inv s -> step t s = Some (s', evs) -> Inv s'.
+Proof.
+  intros I H.
+  destruct (step_wf _ _ _ _ I H) as (W1 & W2 & W3).
+  destruct (step_own _ _ _ _ I H) as (O1 & O2 & O3).
+  destruct (step_hs _ _ _ _ I H) as (H1 & H2).
+  destruct (step_as _ _ _ _ I H) as (A1 & A2).
+  destruct (step_tok _ _ _ _ I H) as (T1 & T2).
+  constructor; auto.
+  - eapply step_bs; eauto.
+  - eapply step_ps; eauto.
+  - eapply step_cs; eauto.
+  - eapply step_ci; eauto.
+  - eapply step_s1; eauto.
+  - eapply step_rs; eauto.
+  - eapply step_pp; eauto.
+  - eapply step_pu; eauto.
+  - eapply step_hop; eauto.
+Qed.
+
+(* ------------------------------------------------------------------ the initial state *)
+Lemma sumf_map {A B} (f : B -> nat) (g : A -> B) l : sumf f (map g l) = sumf (fun x => f (g x)) l.
+Proof. unfold sumf. rewrite map_map. reflexivity. Qed.
+
+Lemma sumf_app {A} (f : A -> nat) l1 l2 : sumf f (l1 ++ l2) = sumf f l1 + sumf f l2.
+Proof. unfold sumf. rewrite map_app, list_sum_app. reflexivity. Qed.
+
+Lemma sumf_eqn_seq b n k : sumf (fun i => eqn i k) (seq b n) <= 1.
+Proof.
+  assert (G : forall n b, (k < b -> sumf (fun i => eqn i k) (seq b n) = 0) /\ sumf (fun i => eqn i k) (seq b n) <= 1).
+  { clear. induction n as [|n IH]; intros b; unfold sumf in *; simpl; [split; intros; lia|].
+    destruct (IH (S b)) as [IH1 IH2]. unfold eqn at 1 3. destruct (Nat.eqb_spec b k).
+    - subst. split; [intros; lia|]. rewrite IH1 by lia. lia.
+    - split; [intros Hb; rewrite IH1 by lia; lia|]. lia. }
+  apply G.
+Qed.
+
+Lemma init_thr_cases fx hs nt t a kc :
+  nth_error (thr (init fx hs nt)) t = Some (a, kc) ->
+  (t < length hs /\ a = AReg t /\ kc = KTop t) \/
+  (exists i, i < length hs /\ (a = SAcq i \/ a = AFin) /\ kc = KEnd) \/
+  (exists j, a = TTry j /\ kc = KEnd).
+Proof.
+  simpl. intros H.
+  set (n := length hs) in *.
+  destruct (Nat.ltb t n) eqn:E1.
+  - apply Nat.ltb_lt in E1. left.
+    rewrite nth_error_app1 in H by (rewrite map_length, seq_length; auto).
+    rewrite nth_error_map in H. rewrite nth_error_nth' with (d := 0) in H by (rewrite seq_length; auto).
+    rewrite seq_nth in H by auto. simpl in H. inversion H. auto.
+  - apply Nat.ltb_ge in E1. right.
+    rewrite nth_error_app2 in H by (rewrite map_length, seq_length; auto). rewrite map_length, seq_length in H.
+    apply nth_error_In in H. apply in_app_or in H. destruct H as [H|H].
+    + left. apply in_map_iff in H. destruct H as [[i b] [H1 H2]]. simpl in H1. inversion H1; subst.
+      apply in_combine_l in H2. apply in_seq in H2. exists i. split; [lia|]. split; auto. destruct b; auto.
+    + right. apply in_map_iff in H. destruct H as [j [H1 H2]]. inversion H1; subst. eauto.
+Qed.
+
+Lemma init_sum0 fx hs nt (f : act * cont -> nat) :
+  (forall i, f (SAcq i, KEnd) = 0) -> f (AFin, KEnd) = 0 -> (forall j, f (TTry j, KEnd) = 0) ->
+  sumf f (thr (init fx hs nt)) = sumf (fun i => f (AReg i, KTop i)) (seq 0 (length hs)).
+Proof.
+  intros H1 H2 H3. unfold init. cbn [thr]. rewrite !sumf_app, !sumf_map.
+  assert (Z1 : sumf (fun x : nat * bool => f (if snd x then SAcq (fst x) else AFin, KEnd)) (combine (seq 0 (length hs)) hs) = 0).
+  { apply sumf_zero. intros n [i b] _. simpl. destruct b; auto. }
+  assert (Z2 : sumf (fun x : nat => f (TTry (2 * length hs + x), KEnd)) (seq 0 nt) = 0).
+  { apply sumf_zero. intros n j _. auto. }
+  rewrite Z1, Z2. lia.
+Qed.
+
+Lemma init_inv fx hs nt : Inv (init fx hs nt).
+Proof.
+  constructor.
+  - intros t a kc i H Hi. apply init_thr_cases in H. simpl.
+    destruct H as [(H1 & -> & ->)|[(j & H1 & [->| ->] & ->)|(j & -> & ->)]]; simpl in Hi; inversion Hi; subst; auto.
+  - intros t a kc i H Hi. apply init_thr_cases in H. simpl.
+    destruct H as [(H1 & -> & ->)|[(j & H1 & [->| ->] & ->)|(j & -> & ->)]]; simpl in Hi; inversion Hi; subst; auto.
+  - simpl. intros i [].
+  - intros t a kc i H Hi. apply init_thr_cases in H.
+    destruct H as [(H1 & -> & ->)|[(j & H1 & [->| ->] & ->)|(j & -> & ->)]]; simpl in Hi; inversion Hi; subst; auto.
+  - intros t a kc i H Hi. apply init_thr_cases in H.
+    destruct H as [(H1 & -> & ->)|[(j & H1 & [->| ->] & ->)|(j & -> & ->)]]; simpl in Hi; inversion Hi; subst; auto.
+  - intros t a i H. apply init_thr_cases in H.
+    destruct H as [(H1 & -> & E)|[(j & H1 & _ & E)|(j & _ & E)]]; discriminate.
+  - intros t [a kc] i H Hi. reflexivity.
+  - intros k. unfold handles, inq. rewrite init_sum0 by reflexivity. simpl.
+    pose proof (sumf_eqn_seq 0 (length hs) k). lia.
+  - intros k _. reflexivity.
+  - intros k. unfold posts. rewrite init_sum0 by reflexivity. simpl.
+    rewrite sumf_zero; auto.
+  - intros k H. discriminate.
+  - intros t a kc k c H Hc. apply init_thr_cases in H.
+    destruct H as [(H1 & -> & E)|[(j & H1 & [->| ->] & E)|(j & -> & E)]]; discriminate.
+  - intros k H. discriminate.
+  - intros t a kc i H Hi. apply init_thr_cases in H.
+    destruct H as [(H1 & -> & E)|[(j & H1 & [->| ->] & E)|(j & -> & E)]]; discriminate.
+  - intros t a kc i H Hi. apply init_thr_cases in H.
+    destruct H as [(H1 & -> & ->)|[(j & H1 & [->| ->] & ->)|(j & -> & ->)]]; discriminate.
+  - intros k H. discriminate.
+  - intros t x kc H. apply init_thr_cases in H.
+    destruct H as [(H1 & E & _)|[(j & H1 & [E|E] & _)|(j & E & _)]]; discriminate.
+  - rewrite init_sum0 by reflexivity. rewrite sumf_zero; auto.
+  - intros t k c kc H. apply init_thr_cases in H.
+    destruct H as [(H1 & E & _)|[(j & H1 & [E|E] & _)|(j & E & _)]]; discriminate.
+  - rewrite tokens_eq. unfold thr_tok, ops_tok. rewrite init_sum0 by reflexivity.
+    rewrite !sumf_zero; simpl; auto.
+  - intros _. rewrite tokens_eq. unfold thr_tok, ops_tok. rewrite init_sum0 by reflexivity.
+    rewrite !sumf_zero; simpl; auto.
+Qed.
+
+Lemma inv_reachable fx hs nt sched : Inv (fst (run step sched (init fx hs nt, []))).
+Proof.
+  apply (run_invariant_state _ _ _ step Inv).
+  - intros s t s' ev I H. eapply step_inv; eauto.
+  - apply init_inv.
+Qed.
+
+(* ------------------------------------------------------------------ state theorems *)
+Lemma op_tok_le_ops_tok s k : k < nl s -> op_tok (ops s k) <= ops_tok s.
+Proof.
+  intros H. unfold ops_tok.
+  apply (sumf_nth_le (fun j => op_tok (ops s j)) (seq 0 (nl s)) k k).
+  rewrite nth_error_nth' with (d := 0) by (rewrite seq_length; auto). rewrite seq_nth by auto. reflexivity.
+Qed.
+
+(* mutual exclusion: the lock tokens (threads inside process_queue with the lock or completing a
+   granted lock operation, try_lock winners, granted operations that have not started unlock())
+   never exceed one, and exist only while locked_ is set *)
+Theorem mutex fx hs nt sched :
+  let s := fst (run step sched (init fx hs nt, [])) in
+  tokens s <= b2n (locked s) /\ tokens s <= 1.
+Proof.
+  intros s. pose proof (v_tok _ (inv_reachable fx hs nt sched)) as T. fold s in T.
+  split; auto. destruct (locked s); simpl in T; lia.
+Qed.
+
+(* with the repaired forwarder the lock is conserved: locked_ is set exactly when somebody holds a
+   token, so a locked mutex always has a thread or granted operation responsible for unlocking *)
+Theorem lock_not_leaked hs nt sched :
+  let s := fst (run step sched (init true hs nt, [])) in
+  tokens s = b2n (locked s).
+Proof.
+  intros s. pose proof (inv_reachable true hs nt sched) as I. fold s in I.
+  apply (v_tokf _ I).
+  assert (G : forall sched, fixed (fst (run step sched (init true hs nt, []))) = true).
+  { clear. intros sched.
+    apply (run_invariant_state _ _ _ step (fun s => fixed s = true)); [|reflexivity].
+    intros s t s' ev F H. destruct (step_consts _ _ _ _ H) as [E _]. congruence. }
+  apply G.
+Qed.
+
+(* every receiver is completed at most once *)
+Theorem each_once fx hs nt sched :
+  let s := fst (run step sched (init fx hs nt, [])) in
+  forall k, length (o_res (ops s k)) <= 1.
+Proof.
+  intros s k. pose proof (v_ps _ (inv_reachable fx hs nt sched) k) as P. fold s in P.
+  destruct (o_completed (ops s k)); simpl in P; lia.
+Qed.
+
+(* try_complete never fails where it is called: resume_'s "popped but already completed by stop"
+   branch (and the ignored result in start()) is dead code over a linearizable list *)
+Theorem try_complete_always_wins fx hs nt sched :
+  let s := fst (run step sched (init fx hs nt, [])) in
+  forall t k c kc, nth_error (thr s) t = Some (ATryComplete k c, kc) -> o_completed (ops s k) = false.
+Proof.
+  intros s t k c kc H. pose proof (inv_reachable fx hs nt sched) as I. fold s in I.
+  destruct (compl_facts _ _ _ _ _ _ I H eq_refl) as (_ & _ & _ & _ & Hc). eapply Hc. reflexivity.
+Qed.
+
+(* ------------------------------------------------------------------ trace observers *)
+Definition compl_of_ev (k : nat) (e : ev) : list outcome :=
+  match e with EComplete k' o _ => if Nat.eqb k' k then [o] else [] | _ => [] end.
+(* what receiver k got, in order *)
+Definition completions (tr : list ev) (k : nat) : list outcome := flat_map (compl_of_ev k) tr.
+
+(* a completion event is consistent with its context: the cancellation paths (stop before
+   start / after try_remove) deliver done; the paths that carry the lock deliver value *)
+Definition ctx_ok (fx : bool) (e : ev) : Prop :=
+  match e with
+  | EComplete k o c =>
+      (is_lock_ctx c = false -> o = ODone) /\ (fx = true -> is_lock_ctx c = true -> o = OValue)
+  | _ => True
+  end.
+
+Record TInv1 (c : st * list ev) : Prop := {
+  t1_inv : Inv (fst c);
+  t1_compl : forall k, completions (snd c) k = rev (o_res (ops (fst c) k));
+  t1_ctx : Forall (ctx_ok (fixed (fst c))) (snd c)
+}.
+
+Lemma init_tinv1 fx hs nt : TInv1 (init fx hs nt, []).
+Proof. constructor; simpl; auto. apply init_inv. Qed.
+
+Lemma step_tinv1 c t s' evs : TInv1 c -> step t (fst c) = Some (s', evs) -> TInv1 (s', snd c ++ evs).
+Proof.
+  destruct c as [s tr]. simpl. intros T H.
+  pose proof (t1_inv _ T) as I. simpl in I.
+  pose proof (step_inv _ _ _ _ I H) as I'.
+  destruct (step_consts _ _ _ _ H) as [Efx _].
+  constructor; simpl; [exact I'| |].
+  - intros k. pose proof (t1_compl _ T k) as C. simpl in C.
+    unfold completions in *. rewrite flat_map_app, C. clear C.
+    step_split' H Hth; simpl; unfold getop in *; try (destruct kc; simpl); eqb_cases; subst; destr_if; simpl;
+      rewrite ?app_nil_r; auto; try congruence.
+  - rewrite Efx. apply Forall_app. split; [apply (t1_ctx _ T)|].
+    clear Efx I'.
+    step_split' H Hth; simpl;
+      try (pose proof (compl_facts _ _ _ _ _ _ I Hth eq_refl) as (Hk & Hres & Hrel & Hcan & Hcomp));
+      try (pose proof (v_hop _ I _ _ _ _ Hth) as Hfx);
+      unfold getop in *; simpl in *; rewrite ?Nat.eqb_refl in *; simpl in *;
+      repeat (constructor; simpl; auto);
+      try (intros; congruence);
+      try (rewrite Hcan in *; destruct (is_lock_ctx c); simpl in *; intros; congruence).
+Qed.
+
+Lemma tinv1_reachable fx hs nt sched : TInv1 (run step sched (init fx hs nt, [])).
+Proof.
+  apply (run_invariant _ _ _ step TInv1).
+  - intros c t s' ev T H. eapply step_tinv1; eauto.
+  - apply init_tinv1.
+Qed.
+
+Lemma fixed_run fx hs nt sched : fixed (fst (run step sched (init fx hs nt, []))) = fx.
+Proof.
+  apply (run_invariant_state _ _ _ step (fun s => fixed s = fx)); [|reflexivity].
+  intros s t s' ev F H. destruct (step_consts _ _ _ _ H) as [E _]. congruence.
+Qed.
+
+(* each receiver is completed at most once (trace form) and the trace agrees with the state *)
+Theorem each_once_trace fx hs nt sched :
+  let c := run step sched (init fx hs nt, []) in
+  forall k, completions (snd c) k = rev (o_res (ops (fst c) k)) /\ length (completions (snd c) k) <= 1.
+Proof.
+  intros c k. pose proof (tinv1_reachable fx hs nt sched) as T. fold c in T.
+  split; [apply (t1_compl _ T)|]. rewrite (t1_compl _ T), rev_length.
+  pose proof (v_ps _ (t1_inv _ T) k) as P. destruct (o_completed (ops (fst c) k)); simpl in P; lia.
+Qed.
+
+(* cancelled_never_owns: a receiver that is completed on a cancellation path (stop before the
+   operation started, or after a successful try_remove) gets set_done and the completing thread
+   does not carry the lock; with the repaired forwarder the converse holds too: whoever is
+   completed on a lock-carrying path (try_lock in start(), pop_front in process_queue) gets
+   set_value - so set_done is delivered only to operations that never owned the mutex *)
+Theorem cancelled_never_owns fx hs nt sched :
+  let tr := snd (run step sched (init fx hs nt, [])) in
+  forall k o c, In (EComplete k o c) tr ->
+    (is_lock_ctx c = false -> o = ODone) /\ (fx = true -> (o = ODone <-> is_lock_ctx c = false)).
+Proof.
+  intros tr k o c Hin. pose proof (tinv1_reachable fx hs nt sched) as T.
+  pose proof (t1_ctx _ T) as F. rewrite fixed_run in F. rewrite Forall_forall in F.
+  specialize (F _ Hin). simpl in F. destruct F as [F1 F2]. split; auto.
+  intros Hf. split; [|auto]. intros ->. destruct (is_lock_ctx c) eqn:E; auto.
+  specialize (F2 Hf eq_refl). discriminate.
 Qed.
